@@ -10,9 +10,10 @@ rm -rf "$sb"; mkdir -p "$sb"
 rsync -a --exclude '.git' --exclude 'work' --exclude 'replays/*' /verif/ "$sb/verif/"
 # absolute paths inside the copy
 sed -i "s#/verif/harness/target#$sb/verif/harness/target#" "$sb/verif/harness/.cargo/config.toml"
+sed -i "s#/verif/harness-rel/target#$sb/verif/harness-rel/target#" "$sb/verif/harness-rel/.cargo/config.toml"
 if [ "$2" = "--worktree" ]; then
   git -C /repo worktree add -f --detach "$sb/repo" HEAD >/dev/null 2>&1
-  sed -i "s#/repo/crates#$sb/repo/crates#g" "$sb/verif/harness/Cargo.toml"
+  sed -i "s#/repo/crates#$sb/repo/crates#g" "$sb/verif/harness/Cargo.toml" "$sb/verif/harness-rel/Cargo.toml"
   echo "worktree: $sb/repo   (export VERIF_REPO=$sb/repo before bin/check so extract.py reads it)"
 fi
 echo "sandbox: $sb/verif   (run: cd $sb/verif && bin/check Cxx quick)"
